@@ -242,7 +242,7 @@ class Gen:
         while i < len(lines) and lines[i].strip() != "//@endfn":
             s = lines[i].strip()
             if s.startswith("//@rw ") or s.startswith("//@rwre "):
-                m = re.match(r"//@(rw|rwre)\s+(\S+)\s+(?:x(\d+|\*)\s+)?`(.*)`\s*=>\s*`(.*)`\s*$", s)
+                m = re.match(r"//@(rw|rwre)\s+(\S+)\s+(?:x(\d+|\*|\?)\s+)?`(.*)`\s*=>\s*`(.*)`\s*$", s)
                 if not m:
                     raise TemplateError("%s:%d: bad rewrite directive" % (tname, i + 1))
                 kind, rule, cnt, pat, rep = m.groups()
@@ -295,7 +295,10 @@ class Gen:
             else:
                 found = len(re.findall(pat, body))
                 newbody = re.sub(pat, rep, body)
-            if cnt != "*" and found != int(cnt):
+            if cnt == "?":
+                if found > 1:
+                    raise AnchorLost("%s: %s: optional rewrite %s pattern `%s` matched %d times" % (rel, qual, rule, pat, found))
+            elif cnt != "*" and found != int(cnt):
                 raise AnchorLost("%s: %s: rewrite %s pattern `%s` matched %d times, expected %s (template line %d)" % (rel, qual, rule, pat, found, cnt, tl))
             if cnt == "*" and found == 0:
                 pass
@@ -379,6 +382,16 @@ class Gen:
                 self.log.append({"rule": "R-DBG", "file": rel, "fn": qual, "line": line, "what": "removed %s!(..)" % m.group(1)})
                 body = body[:m.start()] + body[e:]
                 changed = True
+        # R-REFPAT (generic): `if let Some(&x) = E {`  =>  `if let Some(x__r) = E { let x = *x__r;`
+        def refpat(m):
+            self.log.append({"rule": "R-REFPAT", "file": rel, "fn": qual, "line": line, "what": "`%s let Some(&%s) = ..` => bind reference, then `let %s = *%s__r;`" % (m.group(1), m.group(2), m.group(2), m.group(2))})
+            return "%s let Some(%s__r) = %s{ let %s = *%s__r;" % (m.group(1), m.group(2), m.group(3), m.group(2), m.group(2))
+        body = re.sub(r"\b(if|while) let Some\(&(\w+)\) = ([^{;]*)\{", refpat, body)
+        # R-REFPAT (generic): `let (a, b) = &PLACE;`  =>  two field borrows (PLACE is a pure place expression)
+        def tup(m):
+            self.log.append({"rule": "R-REFPAT", "file": rel, "fn": qual, "line": line, "what": "`let (%s, %s) = &%s;` => two field borrows" % (m.group(1), m.group(2), m.group(3))})
+            return "let %s = &%s.0; let %s = &%s.1;" % (m.group(1), m.group(3), m.group(2), m.group(3))
+        body = re.sub(r"\blet \((\w+), (\w+)\) = &([\w\.\[\]]+);", tup, body)
         return body, None
 
     def _loop_headers(self, body):
